@@ -5,8 +5,8 @@ from lib import vf
 
 RULE_F = ("edge/vertex lists (0-18 vertices, 0-65 edges, hub vertices so that degrees run from 0 to well above 5, parallel "
           "edges, self loops, isolated vertices) rendered as real CSV files under the stream's data/ directory: plain / gzip "
-          "with .gz / gzip WITHOUT .gz, with / without trailing newline, LF / CRLF, shuffled + extra columns in both files (extra column names drawn from plausible aliases / near-misses of the real ones - lon, lat, X, id, src, length ... - holding other numbers, in every position), "
-          "padded fields, exponent notation, explicit (true / arbitrary) or scanned n_edges / n_vertices; loaded through "
+          "with .gz / gzip WITHOUT .gz, with / without trailing newline, LF / CRLF, shuffled + extra columns in both files (extra column names drawn from plausible aliases / near-misses of the real ones - lon, lat, X, id, src, length ... - holding other numbers, in every position; extra TEXT columns first / middle / last holding CSV-special content: leading '#', ';', quoted fields with commas and quotes, spaces, empty, NaN, 3000-character fields), "
+          "padded fields, exponent notation, coordinates as k/4 or (one case in five) as 17-36 digit decimals at / just above / just below the midpoint of two adjacent f32 values, explicit (true / arbitrary) or scanned n_edges / n_vertices; loaded through "
           "Graph::from_files or DefaultGraphBuilder::build (the call CompassApp makes); every accessor printed: sizes, "
           "get_edge / get_vertex past the end, out_edges / in_edges, adj / rev through iter() (len / get asserted "
           "consistent), src / dst / incident_vertex, edge_triplet, incident_edges, incident_triplet_ids / _attributes in "
@@ -14,12 +14,12 @@ RULE_F = ("edge/vertex lists (0-18 vertices, 0-65 edges, hub vertices so that de
           "model, S = specification read off the rows by find / filter; '!DatasetError' (must not load) when an end point is "
           "not a listed vertex; 'unspecified' outside the documented format LD.wf_format. Deterministic families first: star degrees 0..9 x formats, all format x newline combinations, "
           "k parallel edges, k self loops, header-only and zero-byte files, explicit counts, end points out of range, "
-          "unsorted / duplicate ids, blank trailing lines, alias-named extra columns at every position, column / field syntax. Non-trivial = inside the hypotheses and "
+          "unsorted / duplicate ids, blank trailing lines, alias-named extra columns at every position, CSV-special text columns, coordinate decimals at f32 midpoints, column / field syntax. Non-trivial = inside the hypotheses and "
           "some vertex has in- or out-degree >= 6; distinct by case")
 RULE_T = ("per-edge tables written as files (plain / .gz / gzip without extension, with / without trailing newline, 0-75 rows) "
           "and loaded through the readers the models use: read_raw_file + read_decoders::default::<Speed> (and "
           "SpeedTraversalEngine::new, asserted to hold the same table), ::<Grade>, read_decoders::u8 (road classes), "
-          "from_csv::<EdgeHeading> (with header); row i of the loaded table compared with the value written on row i; "
+          "from_csv::<EdgeHeading> (with header, half of the cases with an extra first text column of CSV-special content); row i of the loaded table compared with the value written on row i; "
           "one case in eight has an undecodable line (specification: the whole load must fail, no shifted table). Non-trivial = >= 2 rows, all decodable")
 
 
@@ -52,17 +52,19 @@ def run(chk):
         "an explicit n_vertices, when given, is the number of vertex rows (end points: no assumption - a load that "
         "returns Ok has all end points inside the adjacency, an edge list with a dangling end point must fail)",
         "a file is one header line plus one line per row (no blank lines)",
-        "distances / coordinates are opaque payloads in the theorems (decimal parsing is exercised with exact values k/4)"]
+        "distances / coordinates are opaque payloads in the theorems; in the stream a coordinate is specified as the "
+        "nearest binary32 (ties to even) of the decimal text, computed exactly in Coq (LoaderRun.round_b32, trusted, "
+        "cross-checked against str::parse::<f32> on every run); distances are exercised with exact values k/4"]
     chk.proofs(extra_targets=["Model/LoaderRun.vo"])
     binp = vf.build_harness("c15")
     quick = chk.tier == "quick"
     corpus = ["--corpus", os.path.join(vf.ROOT, "corpus", "C15")]   # witnesses, replayed first in each stream
     if _is(chk, "files"):
-        r = vf.run_stream(binp, "files", 470 if quick else 6000, chk.seed, os.path.join(chk.outdir, "files"), extra=corpus, replay=chk.replay)
+        r = vf.run_stream(binp, "files", 520 if quick else 6000, chk.seed, os.path.join(chk.outdir, "files"), extra=corpus, replay=chk.replay)
         chk.add_stream(r, RULE_F)
         vf.compare(chk, r, classify=classify, binpath=binp, extra=corpus)
     if _is(chk, "tables"):
-        r2 = vf.run_stream(binp, "tables", 300 if quick else 3000, chk.seed, os.path.join(chk.outdir, "tables"), extra=corpus, replay=chk.replay)
+        r2 = vf.run_stream(binp, "tables", 310 if quick else 3000, chk.seed, os.path.join(chk.outdir, "tables"), extra=corpus, replay=chk.replay)
         chk.add_stream(r2, RULE_T)
         vf.compare(chk, r2, classify=classify, binpath=binp, extra=corpus)
     if chk.broken_obligation:
